@@ -5,6 +5,7 @@
 #include <manif/algorithms/average.h>
 #include <manif/algorithms/decasteljau.h>
 #include <gmpxx.h>
+#include "ctor.h"
 
 template<class G> struct GroupRunner2 {
   using S = typename G::Scalar;
@@ -69,6 +70,7 @@ template<class G> struct GroupRunner2 {
       std::vector<G> curve = manif::decasteljau(traj, d, k, closed);
       for(auto& p: curve) o.mat(p.coeffs());
     }
+    else if(op=="Ctor"){ return run_ctor<G>(c,o); }
     else if(op=="Cast"){ G X=mkG(c.args[0]); G r = X.template cast<S>(); o.mat(r.coeffs()); }
     else return false;
     return true;
